@@ -545,22 +545,39 @@ def _norm_c(c):
     return c
 
 
-_ISA = {
-    "int": {"numbers.Number": True, "numbers.Real": True, "numbers.Rational": True, "numbers.Integral": True, "int": True, "float": False, "str": False,
-            "complex": False, "bytes": False, "list": False, "tuple": False, "dict": False},
+# what isinstance(v, T) gives for the kinds of value a VALID parameter of an annotated type can arrive as.  A sequence parameter arrives as a
+# tuple / list by the keyword route and as an omegaconf ListConfig (a Sequence that is neither list nor tuple) by the configuration route
+# and from a restored config.yaml; a validator must accept all of them.
+_KINDS = {
+    "int": {"int": {"numbers.Number": True, "numbers.Real": True, "numbers.Rational": True, "numbers.Integral": True, "int": True, "float": False, "str": False,
+                    "complex": False, "bytes": False, "list": False, "tuple": False, "dict": False}},
+    "sequence": {
+        "tuple": {"tuple": True, "list": False, "Sequence": True, "collections.abc.Sequence": True, "abc.Sequence": True, "typing.Sequence": True, "Iterable": True,
+                  "collections.abc.Iterable": True, "str": False, "bytes": False, "dict": False, "ListConfig": False, "omegaconf.ListConfig": False, "set": False},
+        "list": {"tuple": False, "list": True, "Sequence": True, "collections.abc.Sequence": True, "abc.Sequence": True, "typing.Sequence": True, "Iterable": True,
+                 "collections.abc.Iterable": True, "str": False, "bytes": False, "dict": False, "ListConfig": False, "omegaconf.ListConfig": False, "set": False},
+        "omegaconf.ListConfig (configuration route)": {"tuple": False, "list": False, "Sequence": True, "collections.abc.Sequence": True, "abc.Sequence": True,
+                                                       "typing.Sequence": True, "Iterable": True, "collections.abc.Iterable": True, "str": False, "bytes": False,
+                                                       "dict": False, "ListConfig": True, "omegaconf.ListConfig": True, "set": False},
+    },
 }
 
 
-def _type_guard_truth(e, annotation):
-    """truth of a boolean combination of isinstance(self.F, T) tests for a value of the annotated type; None if unknown"""
-    table = _ISA.get(annotation)
-    if table is None:
-        return None
+def _annotation_family(annotation: str):
+    a = annotation.replace("typing.", "")
+    if a == "int":
+        return "int"
+    if a.startswith(("tuple[", "list[", "Tuple[", "List[", "Sequence[")) or a in ("tuple", "list", "Sequence"):
+        return "sequence"
+    return None
+
+
+def _guard_on_kind(e, table):
     if isinstance(e, ast.UnaryOp) and isinstance(e.op, ast.Not):
-        v = _type_guard_truth(e.operand, annotation)
+        v = _guard_on_kind(e.operand, table)
         return None if v is None else not v
     if isinstance(e, ast.BoolOp):
-        vs = [_type_guard_truth(v, annotation) for v in e.values]
+        vs = [_guard_on_kind(v, table) for v in e.values]
         if isinstance(e.op, ast.And):
             return False if any(v is False for v in vs) else (None if any(v is None for v in vs) else True)
         return True if any(v is True for v in vs) else (None if any(v is None for v in vs) else False)
@@ -573,6 +590,30 @@ def _type_guard_truth(e, annotation):
         names = [ast.unparse(x) for x in t.elts] if isinstance(t, ast.Tuple) else [ast.unparse(t)]
         vs = [table.get(n) for n in names]
         return True if any(v is True for v in vs) else (None if any(v is None for v in vs) else False)
+    return None
+
+
+def _type_guard_truth(e, annotation):
+    """does the (rejecting) guard fire for some kind of value a valid parameter of the annotated type can arrive as?  True: it rejects valid
+    parameters (the second element names the kind); False: for none of them; None: unknown"""
+    fam = _annotation_family(annotation)
+    if fam is None:
+        return None
+    res = False
+    for kind, table in _KINDS[fam].items():
+        v = _guard_on_kind(e, table)
+        if v is True:
+            return True
+        if v is None:
+            res = None
+    return res
+
+
+def _rejected_kind(e, annotation):
+    fam = _annotation_family(annotation)
+    for kind, table in _KINDS.get(fam, {}).items():
+        if _guard_on_kind(e, table) is True:
+            return kind
     return None
 
 
@@ -601,6 +642,11 @@ def _validators(ctx, col):
                         raise AnalysisError(f"{cfg.name}.{f}: type guard `{c_[1]}` on a field annotated `{ann_}`: cannot tell whether it rejects valid values")
                     if tv_ is False:
                         continue
+                    kind_ = _rejected_kind(ast.parse(c_[1], mode="eval").body, ann_)
+                    col.add("R20.3", f"{cfg.name}.{f}", owner.module.relpath, fn.lineno, False,
+                            f"the type guard `{c_[1][:90]}` fires for a valid value of the field (annotated `{ann_}`) that arrives as {kind_}: a documented parameter is "
+                            "rejected by that construction route", text=f"type guard of {f}")
+                    continue
                 gl.append(c_)
             g = sorted(map(_norm_c, gl), key=repr)
             ok = w == g
